@@ -258,3 +258,4 @@ PLAN["C12"]["explanation"] += "; on HTTP/2 a body that arrives after the end of 
 # C05: END_STREAM only for streams whose layer asked for it; closed buffers do not stay registered
 PLAN["C05"]["units"] = PLAN["C05"]["units"] + [HP + "_send_data", SB + "set_complete", SB + "close", SB + "__init__"]
 PLAN["C05"]["explanation"] += "; HTTP/2: a finished stream layer leaves the h2 stream ended, reset or with its end requested (C05.h2.reset, finding F5), END_STREAM is only sent where the end was requested (C05.h2.no-false-end) and a buffer sealed by close() never stays registered (published invariant of StreamBuffer)"
+PLAN["C01"]["units"] = PLAN["C01"]["units"] + [HP + "handle"]
